@@ -330,6 +330,15 @@ def file_mulgrid(ctx, rng, v, i):
     coords = [999999.99, -99999.99, 1234567.89, -999999.99, 12345678.9, 0.0, -0.004, 99999999.0, 1.0e9, -1.0e8][(i // 3) % 10]
     case = {'file': 'mulgrid', 'origin_x': coords}
     geo = mg.mulgrid().rectangular([10., 20.], [15., 25.], [5., 10.], origin=[coords, 7.0, 0.0], atmos_type=i % 3)
+    # header values: every one that exists in the object is a field of the first record
+    hdr = {}
+    if i % 2:
+        hdr = {'gdcx': rng.choice([None, 0.1, -0.25, 0.0]), 'gdcy': rng.choice([None, 0.3, -0.05]),
+               'permeability_angle': rng.choice([0.0, 30.0, -12.5]), 'atmosphere_volume': rng.choice([1.0e25, 1.0e20, 2.5e10]),
+               'atmosphere_connection': rng.choice([1.0e-6, 0.5])}
+        for k_, v_ in hdr.items():
+            setattr(geo, k_, v_)
+        case['header'] = hdr
     fn = os.path.join(ctx.tmp, 'c02_%d.geo' % i)
     ctx.evaluated()
     ctx.case(case, nontrivial=True)
@@ -340,8 +349,36 @@ def file_mulgrid(ctx, rng, v, i):
         if all(len('%10.2f' % n.pos[0]) <= 10 for n in geo.nodelist):
             ctx.violation('file:mulgrid-write-raises-on-fitting', 'write raised %r' % (e,), case)
         return
+    if hdr:
+        # own slicing of the first record by the widths of the format table
+        names, specs = mg.mulgrid_format_specification['header']
+        with open(fn) as f:
+            line = f.readline().rstrip('\n')
+        pos = 0
+        fields = {}
+        for n_, sp in zip(names, specs):
+            w = int(sp.rstrip('sdfeg').split('.')[0])
+            fields[n_] = line[pos:pos + w]
+            pos += w
+        ctx.count('geometry_headers_sliced')
+        for k_, v_ in hdr.items():
+            txt = fields.get(k_, '')
+            if v_ is None:
+                if txt.strip():
+                    ctx.violation('file:mulgrid-header-field', 'header field %s holds %r, the geometry has no value' % (k_, txt), case)
+            else:
+                try:
+                    got = float(txt)
+                except ValueError:
+                    got = None
+                if got is None or abs(got - v_) > 0.006 * max(1.0, abs(v_)):
+                    ctx.violation('file:mulgrid-header-field', 'header field %s holds %r, the geometry holds %r' % (k_, txt, v_), case)
     with ctx.guard(case, where='file-mulgrid-read'):
         back = mg.mulgrid(fn)
+        for k_, v_ in hdr.items():
+            got = getattr(back, k_)
+            if (v_ is None) != (got is None) or (v_ is not None and abs(got - v_) > 0.006 * max(1.0, abs(v_))):
+                ctx.violation('file:mulgrid-header-value', 'header value %s wrote %r read %r' % (k_, v_, got), case)
         if [n.name for n in back.nodelist] != [n.name for n in geo.nodelist]:
             ctx.violation('file:mulgrid-node-list', 'node names differ after round trip', case)
             return
